@@ -38,7 +38,7 @@ Definition enc_ok (B : Z) (o : op) (d : ct) : Prop :=
 Definition step_verdict (chk : bool) (B : Z) (o : op) (d a b : ct) : Prop :=
   match meta_step chk B o d a b with
   | Done m sz _ => spec_step B o d a b = SOk m sz /\ enc_ok B o d
-  | Fail e _ => spec_step B o d a b = SErr e
+  | Fail e m => spec_step B o d a b = SErr e /\ good B (Ct m (csize d))
   | Panic => admissible B o d a -> known_panic B o d a b
   end.
 
@@ -53,8 +53,7 @@ Ltac rdx :=
     s_unary s_align s_f64 s_mul_ct s_mul_pt s_acc
     offset_unary offset_binary offu offb ssub eff maxk
     bind ret fail panic get set_meta set_lb set_ld shift csub usub uadd passert when
-    admissible known_panic k1_rescale_into_small_dst k2_const_digits_beyond_dst k3_product_of_noncompact
-    k6_product_base2k_mismatch compact_ct
+    admissible known_panic k3_product_of_noncompact compact_ct unary_into_late
     fst snd cm csize ld lb pm pmaxk pb2k km klen knone];
   cbv beta iota zeta.
 
@@ -77,9 +76,11 @@ Ltac cdivs :=
       end
   end.
 
+Ltac goodgoal := unfold good, inv, eff, maxk, two62 in *; cbn [cm csize ld lb] in *; repeat split; lia.
+
 Ltac fin :=
   try match goal with
-  | |- _ = _ /\ _ => split; [ | first [exact I | lia] ]
+  | |- _ = _ /\ _ => split; [ | first [exact I | lia | goodgoal | idtac ] ]
   end;
   try match goal with
   | |- SOk _ _ = SOk _ _ => f_equal; try f_equal; lia
@@ -108,7 +109,9 @@ Proof.
   (* compact_limbs_copy: the slice exists because the source satisfies the invariant *)
   all: try (pose proof (cdiv_le_iff B (al + ab) asz HB); intros; exfalso; lia).
   (* constants: to_znx has one limb to write into as soon as the precision is not (0, 0) *)
-  all: pose proof (min_k_ge1 B pl pb HB); intros; exfalso; lia.
+  all: try (pose proof (min_k_ge1 B pl pb HB); intros; exfalso; lia).
+  (* a failed encryption (plaintext alignment) has passed the noise-limb assertion: enc_k <= max_k *)
+  all: try (pose proof (cdiv_le_iff B k ds HB); goodgoal).
 Qed.
 
 (* ------------------------------------------------------------------ consequences for one call *)
@@ -133,19 +136,18 @@ Proof.
   unfold step_verdict in H. unfold outcome_matches.
   destruct (meta_step chk B o d a b) as [m sz sh | e m | ]; [ | | congruence ].
   - destruct H as [H _]. rewrite H. split; reflexivity.
-  - rewrite H. reflexivity.
+  - destruct H as [H _]. rewrite H. reflexivity.
 Qed.
 
-(* the closed-form algebra keeps the invariant (outside K1) *)
+(* the closed-form algebra keeps the invariant *)
 Lemma spec_ok_good (B : Z) (o : op) (d a b : ct) (m : meta) (sz : Z) :
-  1 <= B -> wf_op B o -> good B d -> good B a -> good B b ->
-  ~ k1_rescale_into_small_dst B o d a -> enc_ok B o d ->
+  1 <= B -> wf_op B o -> good B d -> good B a -> good B b -> enc_ok B o d ->
   spec_step B o d a b = SOk m sz -> good B (Ct m sz).
 Proof.
-  intros HB Hwf Hd Ha Hb Hk1 Henc.
+  intros HB Hwf Hd Ha Hb Henc.
   split_op o;
-  destruct d as [[dl db] ds], a as [[al ab] asz], b as [[bl bb] bs]; hyps; revert Hk1 Henc.
-  all: go; unfold two64, f64_prec in *; intros Hk1 Henc Hs; try discriminate Hs;
+  destruct d as [[dl db] ds], a as [[al ab] asz], b as [[bl bb] bs]; hyps; revert Henc.
+  all: go; unfold two64, f64_prec in *; intros Henc Hs; try discriminate Hs;
        injection Hs as <- <-; hyps.
   all: try (repeat split; lia).
   (* encryption: the noise limb exists, hence enc_k <= max_k *)
@@ -158,14 +160,24 @@ Qed.
 
 Lemma meta_never_exceeds (chk : bool) (B : Z) (o : op) (d a b : ct) (m : meta) (sz : Z) (sh : list Z) :
   1 <= B -> wf_op B o -> good B d -> good B a -> good B b ->
-  ~ k1_rescale_into_small_dst B o d a ->
   meta_step chk B o d a b = Done m sz sh ->
   good B (Ct m sz).
 Proof.
-  intros HB Hwf Hd Ha Hb Hk1 Hdone.
+  intros HB Hwf Hd Ha Hb Hdone.
   pose proof (step_cases chk B o d a b HB Hwf Hd Ha Hb) as H.
   unfold step_verdict in H. rewrite Hdone in H. destruct H as [H1 H2].
-  exact (spec_ok_good B o d a b m sz HB Hwf Hd Ha Hb Hk1 H2 H1).
+  exact (spec_ok_good B o d a b m sz HB Hwf Hd Ha Hb H2 H1).
+Qed.
+
+(* a failed call leaves metadata that the destination can hold *)
+Lemma fail_keeps_good (chk : bool) (B : Z) (o : op) (d a b : ct) (e : ekind) (m : meta) :
+  1 <= B -> wf_op B o -> good B d -> good B a -> good B b ->
+  meta_step chk B o d a b = Fail e m ->
+  good B (Ct m (csize d)).
+Proof.
+  intros HB Hwf Hd Ha Hb Hf.
+  pose proof (step_cases chk B o d a b HB Hwf Hd Ha Hb) as H.
+  unfold step_verdict in H. rewrite Hf in H. exact (proj2 H).
 Qed.
 
 (* ------------------------------------------------------------------ programs *)
@@ -189,77 +201,41 @@ Qed.
 
 Lemma exec_step_good (chk : bool) (B : Z) (rs : regs) (s : step) :
   1 <= B -> Forall (good B) rs -> wf_op B (sop s) ->
-  ~ k1_rescale_into_small_dst B (sop s) (rget rs (sd s)) (rget rs (sa s)) ->
-  is_done (fst (exec_step chk B rs s)) ->
   Forall (good B) (snd (exec_step chk B rs s)).
 Proof.
-  intros HB Hrs Hwf Hk1 Hdone. unfold exec_step in *. cbn [fst snd] in *.
+  intros HB Hrs Hwf. unfold exec_step. cbn [fst snd].
+  pose proof (rget_good B rs (sd s) HB Hrs) as Gd.
+  pose proof (rget_good B rs (sa s) HB Hrs) as Ga.
+  pose proof (rget_good B rs (sb s) HB Hrs) as Gb.
   destruct (meta_step chk B (sop s) (rget rs (sd s)) (rget rs (sa s)) (rget rs (sb s))) as [m sz sh | e m | ] eqn:E;
-    cbn in Hdone; try contradiction.
-  cbn [apply_outcome]. apply rset_good; [ exact Hrs | ].
-  exact (meta_never_exceeds chk B (sop s) _ _ _ m sz sh HB Hwf (rget_good B rs _ HB Hrs) (rget_good B rs _ HB Hrs)
-           (rget_good B rs _ HB Hrs) Hk1 E).
+    cbn [apply_outcome].
+  - apply rset_good; [ exact Hrs | ]. exact (meta_never_exceeds chk B (sop s) _ _ _ m sz sh HB Hwf Gd Ga Gb E).
+  - apply rset_good; [ exact Hrs | ]. exact (fail_keeps_good chk B (sop s) _ _ _ e m HB Hwf Gd Ga Gb E).
+  - exact Hrs.
 Qed.
 
-Lemma exec_prog_snd (chk : bool) (B : Z) (rs : regs) (s : step) (tl : list step) :
-  is_done (fst (exec_step chk B rs s)) ->
-  snd (exec_prog chk B rs (s :: tl)) = snd (exec_prog chk B (snd (exec_step chk B rs s)) tl).
-Proof.
-  intros H. cbn [exec_prog]. destruct (exec_step chk B rs s) as [o rs'] eqn:E. cbn [fst snd] in *.
-  destruct o; cbn in H; try contradiction.
-  destruct (exec_prog chk B rs' tl) as [os rf]. reflexivity.
-Qed.
-
+(* after any straight-line program -- whether its calls succeed, fail (and the caller goes on) or panic -- every
+   register satisfies the invariant *)
 Lemma program_meta (chk : bool) (B : Z) (p : list step) : forall rs : regs,
-  1 <= B -> Forall (good B) rs -> clean_run chk B rs p ->
+  1 <= B -> Forall (good B) rs -> wf_prog B p ->
   Forall (good B) (snd (exec_prog chk B rs p)).
 Proof.
-  induction p as [ | s tl IH ]; intros rs HB Hrs Hc.
+  induction p as [ | s tl IH ]; intros rs HB Hrs Hwf.
   - exact Hrs.
-  - cbn [clean_run] in Hc. destruct Hc as (Hwf & Hk1 & Hdone & Htl).
-    rewrite exec_prog_snd by exact Hdone.
-    apply IH; [ exact HB | | exact Htl ].
-    apply exec_step_good; assumption.
-Qed.
-
-(* every outcome of a clean run is Ok *)
-Lemma program_all_done (chk : bool) (B : Z) (p : list step) : forall rs : regs,
-  clean_run chk B rs p -> Forall is_done (fst (exec_prog chk B rs p)).
-Proof.
-  induction p as [ | s tl IH ]; intros rs Hc; cbn [exec_prog].
-  - constructor.
-  - cbn [clean_run] in Hc. destruct Hc as (_ & _ & Hdone & Htl).
-    destruct (exec_step chk B rs s) as [o rs'] eqn:E. cbn [fst snd] in *.
-    specialize (IH rs' Htl).
-    destruct o; cbn in Hdone; try contradiction.
-    destruct (exec_prog chk B rs' tl) as [os rf]. cbn [fst] in *. constructor; [ exact I | exact IH ].
+  - inversion Hwf as [ | x l Hs Htl ]; subst.
+    pose proof (exec_step_good chk B rs s HB Hrs Hs) as Hg.
+    cbn [exec_prog]. destruct (exec_step chk B rs s) as [o rs'] eqn:E. cbn [snd] in Hg.
+    destruct o; cbn [snd].
+    + specialize (IH rs' HB Hg Htl). destruct (exec_prog chk B rs' tl) as [os rf]. exact IH.
+    + specialize (IH rs' HB Hg Htl). destruct (exec_prog chk B rs' tl) as [os rf]. exact IH.
+    + exact Hg.
 Qed.
 
 (* ------------------------------------------------------------------ where the faithful model violates the property *)
 Definition c8 (l b : Z) : ct := Ct (Meta l b) 8.
 
-(* K1: rescale into a smaller destination: Ok with log_delta + log_budget > max_k *)
-Lemma rescale_into_exceeds_refuted :
-  exists (B : Z) (d a : ct) (k : Z) (m : meta) (sz : Z) (sh : list Z),
-    1 <= B /\ wf_op B (ORescaleInto k) /\ good B d /\ good B a /\
-    meta_step true B (ORescaleInto k) d a a = Done m sz sh /\ maxk B (Ct m sz) < eff m.
-Proof.
-  exists 19, (Ct (Meta 0 0) 6), (c8 30 122), 3, (Meta 30 119), 6, [3].
-  unfold good, inv, wf_op, small, eff, maxk, two62, two63, c8; cbn. repeat split; try lia; reflexivity.
-Qed.
-
-(* K2: adding a constant that is more precise than what the destination stores panics *)
-Lemma const_add_panics_refuted :
-  exists (B : Z) (d : ct) (prec : meta),
-    1 <= B /\ wf_op B (OCstRnxAssign prec false) /\ good B d /\ admissible B (OCstRnxAssign prec false) d d /\
-    meta_step true B (OCstRnxAssign prec false) d d d = Panic /\
-    meta_step false B (OCstRnxAssign prec false) d d d = Panic.
-Proof.
-  exists 19, (Ct (Meta 30 8) 2), (Meta 50 0).
-  unfold good, inv, wf_op, smallm, admissible, eff, maxk, two62; cbn. repeat split; try lia; try reflexivity; try (right; lia).
-Qed.
-
-(* K3: a product of a ciphertext that is not stored compactly panics (after a rescale, or the result of a product) *)
+(* a product of a ciphertext that is not stored compactly panics (the un-compacted result of a product, or a rescaled
+   ciphertext): both profiles *)
 Lemma product_noncompact_panics_refuted :
   exists (B : Z) (d a : ct),
     1 <= B /\ good B d /\ good B a /\ admissible B OSquareInto d a /\
@@ -269,68 +245,35 @@ Proof.
   unfold good, inv, admissible, eff, maxk, two62, c8; cbn. repeat split; try lia; reflexivity.
 Qed.
 
-(* K6: a product with a vector plaintext of another base2k panics instead of returning PlaintextBase2KMismatch *)
-Lemma product_base2k_panics_refuted :
-  exists (B : Z) (d a : ct) (p : ptz),
-    1 <= B /\ wf_op B (OMulPtZnxInto p) /\ good B d /\ good B a /\ compact_ct B a /\
-    meta_step true B (OMulPtZnxInto p) d a a = Panic.
-Proof.
-  exists 19, (Ct (Meta 0 0) 8), (c8 30 122), (Ptz (Meta 20 0) 20 20).
-  unfold good, inv, wf_op, wf_ptz, smallm, compact_ct, eff, maxk, two62, c8; cbn. repeat split; try lia; reflexivity.
-Qed.
-
-(* K4: a failed call leaves metadata that the destination cannot hold; the next call on it succeeds *)
-Lemma program_meta_refuted :
-  exists (B : Z) (rs : regs) (p : list step),
-    1 <= B /\ Forall (good B) rs /\ Forall (fun s => wf_op B (sop s)) p /\
-    (exists e m m' sz sh, fst (exec_prog true B rs p) = [Fail e m; Done m' sz sh]) /\
-    ~ Forall (inv B) (snd (exec_prog true B rs p)).
-Proof.
-  exists 19, [c8 30 122; Ct (Meta 0 0) 1], [Step ONegInto 1 0 0; Step ONegAssign 1 1 1].
-  split; [ lia | ]. split.
-  { repeat constructor; unfold inv, eff, maxk, two62, c8; cbn; lia. }
-  split. { repeat constructor. }
-  split. { vm_compute. do 5 eexists. reflexivity. }
-  assert (E : snd (exec_prog true 19 [c8 30 122; Ct (Meta 0 0) 1] [Step ONegInto 1 0 0; Step ONegAssign 1 1 1])
-               = [c8 30 122; Ct (Meta 30 122) 1]) by (vm_compute; reflexivity).
-  rewrite E. intros H. inversion H as [ | x l H1 H2 ]; subst. inversion H2 as [ | y l' H3 H4 ]; subst.
-  unfold inv, eff, maxk in H3; cbn in H3. lia.
-Qed.
-
-(* K5: scalars above 2^63: panic with overflow checks, wrapped metadata without *)
-Lemma huge_scalar_refuted :
-  exists (B : Z) (d a : ct) (bits : Z) (m : meta) (sz : Z) (sh : list Z),
-    1 <= B /\ good B d /\ good B a /\ 0 <= bits < two64 /\
-    meta_step true B (ODivPow2Into bits) d a a = Panic /\
-    meta_step false B (ODivPow2Into bits) d a a = Done m sz sh /\ ld m < ld (cm a).
-Proof.
-  exists 19, (Ct (Meta 0 0) 7), (c8 30 122), (two64 - 1), (Meta 29 104), 7, [19].
-  unfold good, inv, eff, maxk, two62, two64, c8; cbn. repeat split; try lia; reflexivity.
-Qed.
-
-(* ------------------------------------------------------------------ the hypotheses are satisfiable *)
+(* ------------------------------------------------------------------ the hypotheses are satisfiable; regression witnesses *)
 Lemma example_step :
   let B := 19 in let d := Ct (Meta 0 0) 6 in let a := c8 30 122 in
   1 <= B /\ wf_op B ONegInto /\ good B d /\ good B a /\ admissible B ONegInto d a /\ ~ known_panic B ONegInto d a a /\
-  ~ k1_rescale_into_small_dst B ONegInto d a /\
   meta_step true B ONegInto d a a = Done (Meta 30 84) 6 [38].
 Proof.
-  unfold good, inv, wf_op, admissible, known_panic, k1_rescale_into_small_dst, k2_const_digits_beyond_dst,
-    k3_product_of_noncompact, k6_product_base2k_mismatch, eff, maxk, two62, c8; cbn.
+  unfold good, inv, wf_op, admissible, known_panic, k3_product_of_noncompact, eff, maxk, two62, c8; cbn.
   repeat split; try lia; try reflexivity; tauto.
 Qed.
+
+(* the repaired classes: rescale into a smaller destination, a constant with too many digits, a failed call *)
+Lemma example_repaired :
+  meta_step true 19 (ORescaleInto 3) (Ct (Meta 0 0) 6) (c8 30 122) (c8 30 122) = Done (Meta 30 84) 6 [38] /\
+  meta_step true 19 (OCstRnxAssign (Meta 50 0) false) (Ct (Meta 30 8) 2) (c8 0 0) (c8 0 0) = Fail EAlign (Meta 30 8) /\
+  meta_step true 19 ONegInto (Ct (Meta 0 0) 1) (c8 30 122) (c8 30 122) = Fail ECapacity (Meta 0 0) /\
+  meta_step false 19 (ODivPow2Into (two64 - 1)) (Ct (Meta 0 0) 7) (c8 30 122) (c8 30 122) = Fail ECapacity (Meta 0 0) /\
+  meta_step false 19 (OSetMeta (Meta (two64 - 1) 2)) (Ct (Meta 0 0) 7) (c8 0 0) (c8 0 0) = Fail EShrink (Meta 0 0).
+Proof. repeat split; reflexivity. Qed.
 
 Lemma example_program :
   let B := 19 in
   let rs := [Ct (Meta 0 0) 8; Ct (Meta 0 0) 8; Ct (Meta 0 0) 7] in
   let p := [Step (OEncrypt (Meta 30 10) 152) 0 0 0; Step OSquareInto 1 0 0; Step OCompact 1 1 1;
-            Step (ORescaleInto 10) 2 1 1; Step OLinAssign 2 1 1] in
-  1 <= B /\ Forall (good B) rs /\ clean_run true B rs p /\
-  snd (exec_prog true B rs p) = [c8 30 122; Ct (Meta 30 92) 7; Ct (Meta 30 82) 7].
+            Step (ORescaleInto 10) 2 1 1; Step OLinAssign 2 1 1; Step ONegInto 2 0 0] in
+  1 <= B /\ Forall (good B) rs /\ wf_prog B p /\
+  snd (exec_prog true B rs p) = [c8 30 122; Ct (Meta 30 92) 7; Ct (Meta 30 103) 7].
 Proof.
   cbv zeta. split; [ lia | ]. split.
   { repeat constructor; unfold inv, eff, maxk, two62; cbn; lia. }
   split; [ | reflexivity ].
-  cbn [clean_run]. unfold wf_op, smallm, small, two62, two63, k1_rescale_into_small_dst; cbn [sop sd sa sb].
-  vm_compute. repeat split; try lia; try (intros H; lia); try discriminate; auto.
+  unfold wf_prog. repeat constructor; unfold wf_op, smallm, small, two62, two64; cbn; lia.
 Qed.
